@@ -467,3 +467,21 @@ func init() {
 	addMutant(Mutant{Name: "c30-leafref-lookup-with-wildcards", Property: "C30", File: "ytypes/leafref.go",
 		Old: "path, &GetPartialKeyMatch{}, &GetTolerateNil{})", New: "path, &GetPartialKeyMatch{}, &GetHandleWildcards{}, &GetTolerateNil{})", Expect: "no-wildcards"})
 }
+
+func init() {
+	// rules added after the eighth seed batch
+	addMutant(Mutant{Name: "c14-range-orderedmap-skips-empty-key", Property: "C14", File: "internal/yreflect/reflect_orderedmap.go",
+		Old: "\tfor _, k := range keys {\n\t\tret := getMethod.Call([]reflect.Value{k})", New: "\tfor _, k := range keys {\n\t\tif k.Kind() == reflect.String && k.Len() == 0 {\n\t\t\tcontinue\n\t\t}\n\t\tret := getMethod.Call([]reflect.Value{k})", Expect: "RangeOrderedMap:exit#"})
+	addMutant(Mutant{Name: "c18-binary-cast-nil-for-empty", Property: "C18", File: "util/reflect.go",
+		Old: "\t\tnv.SetBytes(v.Bytes())", New: "\t\tnv.SetBytes(append([]uint8(nil), v.Bytes()...))", Expect: "InsertIntoStruct:nil-for-empty"})
+	addMutant(Mutant{Name: "c03-opts-scan-returns-early", Property: "C03", File: "ygot/diff.go",
+		Old: "\t\tcase *IgnoreAdditions:\n\t\t\treturn v\n", New: "\t\tcase *IgnoreAdditions:\n\t\t\treturn v\n\t\tcase *DiffPathOpt:\n\t\t\treturn nil\n", Expect: "hasIgnoreAdditions:opts-loop"})
+	addMutant(Mutant{Name: "c30-deepequal-by-string", Property: "C30", File: "util/reflect.go",
+		Old: "\treturn reflect.DeepEqual(aa, bb)", New: "\treturn fmt.Sprint(aa) == fmt.Sprint(bb)", Expect: "DeepEqualDerefPtrs:result"})
+	addMutant(Mutant{Name: "c17-enum-key-arm-misnamed", Property: "C17", File: "ygot/render.go",
+		Old: "\t\tcase reflect.Int64:\n\t\t\tkeyval, err := keyValue(k, false)", New: "\t\tcase reflect.Int32:\n\t\t\tkeyval, err := keyValue(k, false)", Expect: "mapKeyToJSONString:raw-key"})
+	addMutant(Mutant{Name: "c01-jsonpath-direct-lookup-below-first", Property: "C01", File: "ytypes/util_json.go",
+		Old: "\tfor k, v := range t {\n\t\tif path[0] == util.StripModulePrefix(k) {", New: "\tif v, ok := t[path[0]]; ok {\n\t\treturn getJSONTreeValForPath(v, path[1:])\n\t} else if len(path) > 1 {\n\t\treturn nil, false\n\t}\n\tfor k, v := range t {\n\t\tif path[0] == util.StripModulePrefix(k) {", Expect: "not-found-after-search"})
+	addMutant(Mutant{Name: "c18-strip-prefix-last-segment", Property: "C18", File: "util/path.go",
+		Old: "\tcase 2:\n\t\treturn ps[1]\n\tdefault:\n\t\treturn name\n\t}\n}\n\n// ReplacePathSuffix", New: "\tdefault:\n\t\treturn ps[len(ps)-1]\n\t}\n}\n\n// ReplacePathSuffix", Expect: "StripModulePrefix:return#"})
+}
